@@ -128,6 +128,74 @@ class Body:
                 stack.append(t)
         return seen
 
+    def reachable_sensitive(self, start, removed_edges=(), removed_blocks=(), unwind=False, consts=None, max_states=4000):
+        """Like reachable(), but path-sensitive in the integer/bool locals that are assigned literals (or copies of such locals) along the
+        way: a switch on a local whose value is known on this path follows only the matching target. `let culled = match m { None => false,
+        .. }; if culled { continue }` is thereby not a path from the None arm to the `continue`. Locals re-assigned something else become
+        unknown; the state space is the (block, known-constants) pairs, bounded."""
+        removed_edges = set(removed_edges)
+        removed_blocks = set(removed_blocks)
+        seen_blocks = set()
+        if start in removed_blocks:
+            return seen_blocks
+        init = frozenset((consts or {}).items())
+        stack = [(start, init)]
+        seen = {(start, init)}
+        while stack:
+            b, st = stack.pop()
+            seen_blocks.add(b)
+            env = dict(st)
+            blk = self.blocks[b]
+            for s_ in blk["stmts"]:
+                if s_["k"] != "Assign":
+                    continue
+                lhs = s_["lhs"]
+                if lhs["p"]:
+                    continue
+                rv = s_["rv"]
+                val = None
+                if rv["k"] == "Use":
+                    a = rv["a"]
+                    k_ = a.get("k")
+                    if k_ is not None and isinstance(k_.get("v"), int) and not isinstance(k_.get("v"), bool) and k_.get("ty") in ("bool", "u8", "u16", "u32", "u64", "usize", "i8", "i16", "i32", "i64", "isize"):
+                        val = int(k_["v"])
+                    else:
+                        pl = a.get("c") or a.get("m")
+                        if pl is not None and not pl["p"] and pl["l"] in env:
+                            val = env[pl["l"]]
+                elif rv["k"] == "UnaryOp" and rv.get("op") == "Not":
+                    pl = rv["a"].get("c") or rv["a"].get("m")
+                    if pl is not None and not pl["p"] and pl["l"] in env and rv.get("ty") == "bool":
+                        val = 1 - env[pl["l"]]
+                if val is None:
+                    env.pop(lhs["l"], None)
+                else:
+                    env[lhs["l"]] = val
+            t = blk["term"]
+            if t["k"] == "Call" and t.get("dest") is not None and not t["dest"]["p"]:
+                env.pop(t["dest"]["l"], None)
+            edges = self.term_edges(b, unwind)
+            if t["k"] == "SwitchInt":
+                pl = t["discr"].get("c") or t["discr"].get("m")
+                if pl is not None and not pl["p"] and pl["l"] in env:
+                    v = env[pl["l"]]
+                    hit = [(tb, lab) for tb, lab in edges if lab[0] == "switch" and lab[1] == v]
+                    edges = hit or [(tb, lab) for tb, lab in edges if lab[0] == "otherwise"]
+            nst = frozenset(env.items())
+            for tb, lab in edges:
+                if (b, tb) in removed_edges or (b, tb, lab) in removed_edges or tb in removed_blocks:
+                    continue
+                key = (tb, nst)
+                if key in seen:
+                    continue
+                if len(seen) > max_states:
+                    # give up precision, stay sound: fall back to the insensitive closure from here
+                    seen_blocks |= self.reachable(tb, removed_edges, removed_blocks, unwind)
+                    continue
+                seen.add(key)
+                stack.append(key)
+        return seen_blocks
+
     def reachable_from_succs(self, bb, **kw):
         """Blocks reachable by leaving bb (bb itself only if on a cycle)."""
         res = set()
